@@ -106,9 +106,6 @@ def expected_tokens(stream, alphabetical):
             out.append(("end", _lower(t["name"]), t.get("namespace")))
         elif ty == "Comment":
             out.append(("comment", t["data"]))
-        elif ty == "Comment":
-            if any(h and n in ("title", "textarea") for (h, n) in open_el):
-                out.append("C08-element-inside-rcdata")
         elif ty == "Doctype":
             out.append(("doctype", _lower(t["name"] or ""), t["publicId"] or "", t["systemId"] or ""))
         else:
@@ -296,6 +293,24 @@ def check_case(case):
         given = own_stream(model(fl, enc))
     else:
         given = own_stream(fl)
+    if opts.get("strip_whitespace"):
+        # the configured whitespace filter rewrites text by design (C17 decides that filter); here its documented effect is applied to the
+        # expectation: runs of ASCII white space collapse outside pre/textarea/raw-text elements.  Only where C17's model is decided.
+        from vf.props import c17
+        amb = [r for r in fl if r[1] == "elem" and ((r[2] in (None, HTML_NS) and r[3] in c17.DONTCARE) or
+                                                     (r[2] not in (None, HTML_NS) and r[3] in ("style", "script", "title", "pre", "textarea", "xmp", "iframe", "noembed", "noframes", "noscript")))]
+        if amb or walker != "etree":
+            return Verdict("excluded", finding="strip_whitespace with elements whose white space the property does not decide (or the dom walker's split text nodes, C17 finding)")
+        stack, g2 = [], []
+        for t in given:
+            if t["type"] == "StartTag":
+                stack.append(t.get("namespace") in (None, HTML_NS) and t["name"] in c17.PRESERVE)
+            elif t["type"] == "EndTag" and stack:
+                stack.pop()
+            elif t["type"] == "Characters" and not any(stack):
+                t = dict(t, data=c17.collapse(t["data"]))
+            g2.append(t)
+        given = g2
     ser = HTMLSerializer(omit_optional_tags=False, inject_meta_charset=inject, **opts)
     try:
         out = ser.render(iter([dict(t, data=dict(t["data"])) if isinstance(t.get("data"), dict) else dict(t) for t in stream]), enc)
@@ -347,6 +362,8 @@ def decode_opts(data):
     # output encoding (None = str output) and, with it, the meta-charset filter; popped before the options reach HTMLSerializer
     o["_encoding"] = dec.pick([None, None, None, "ascii", "ascii", "utf-8", "koi8-r", "iso-8859-1", "windows-1252"])   # codecs that round-trip every character they encode (shift_jis maps U+00A5 to 0x5C)
     o["_inject"] = bool(dec.below(2))
+    if dec.below(5) == 0:
+        o["strip_whitespace"] = True
     return o
 
 
@@ -366,11 +383,12 @@ HEADS = ["", "", "", "", "", "<meta charset=x>", "<meta http-equiv=content-type 
 def run_shard(desc, seed, tier):
     acc = Acc()
     strat = st.tuples(soup.soup_text(profile=desc["profile"], max_items=30), st.one_of(st.none(), st.none(), st.sampled_from(soup.CONTEXTS)), st.booleans(), st.sampled_from(["etree", "dom"]),
-                      st.binary(min_size=12, max_size=12), st.sampled_from(HEADS))
+                      st.binary(min_size=13, max_size=13), st.sampled_from(HEADS))
 
     def fn(x):
         (profile, text), container, scripting, walker, od, head = x
-        case = {"text": head + text, "container": container, "scripting": scripting, "walker": walker, "opts": decode_opts(od)}
+        o = decode_opts(od)
+        case = {"text": head + text, "container": container, "scripting": scripting, "walker": "etree" if o.get("strip_whitespace") else walker, "opts": o}
         acc.add(case, check_case(case))
     drive(strat, fn, desc["n"], seed)
     return acc
